@@ -240,4 +240,9 @@ def run(ck):
     # rules of C12; they report under their C12 ids)
     from .c12 import rule_algebra
     ck.attempt(rule_algebra)
+    # "registering constraints in a different order yields the same results": each added row places its coefficients under their stations,
+    # whatever was added before (add-constraint rules of C12; they report under their C12 ids)
+    from .c12 import rule_add
+    ck.attempt(rule_add)
+
 
